@@ -88,11 +88,17 @@ class ClientAuthenticator:
         self.authMech = self.authOrder.pop()
 
         if self.authMech == b'DBUS_COOKIE_SHA1':
+            try:
+                user = getpass.getuser().encode('ascii')
+            except Exception:
+                # no usable login name (a uid without passwd entry, a
+                # non-ASCII name): this mechanism cannot be offered
+                return self.authTryNextMethod()
             self.sendAuthMessage(
                 b'AUTH '
                 + self.authMech
                 + b' '
-                + binascii.hexlify(getpass.getuser().encode('ascii'))
+                + binascii.hexlify(user)
             )
         elif self.authMech == b'ANONYMOUS':
             self.sendAuthMessage(
